@@ -5,7 +5,7 @@ from typing import Dict, List, Optional, Set, Tuple
 from ..model import AnalysisError, Program, ClassInfo, FunctionInfo, walk_function, parent, dotted_name
 from ..guards import (norm, card_admitted, name_subject, isinstance_atom, known_instance, tag_equalities,
                       call_name, const_str, kwarg, Copies, card_truth, canon_atom)
-from ..facts import (Fn, verdict, whole_collection_loop, enclosing_loops, enclosing_stmt, str_format_const,
+from ..facts import (Fn, verdict, reaching_defs, whole_collection_loop, enclosing_loops, enclosing_stmt, str_format_const,
                      assigned_from, CORE, MUTATORS, loop_exits)
 from ..cfg import conj_atoms
 
@@ -50,7 +50,7 @@ def raise_class(r: ast.Raise) -> Optional[str]:
 # =====================================================================================================
 
 def r01_1_entry(ctx):
-    """R01.1: get_single_node returns __process_node(composed node, document_type) for a non-None document"""
+    """R01.1: get_single_node returns __process_node(composed node, document_type) on every path"""
     P = ctx.P
     r = ctx.rule('R01.1', 'Loader.get_single_node hands every composed document to __process_node with the '
                           'document type and returns its result', floor=2)
@@ -65,41 +65,36 @@ def r01_1_entry(ctx):
         r.check(t in ok_types, 'get_single_node processes with %s' % t, f.key('process-type:%s' % t), f.loc(c),
                 '__process_node is called with %s instead of the loader\'s document_type' % t)
         a0 = c.args[0]
-        src_ok = False
-        if isinstance(a0, ast.Name):
-            for rhs in assigned_from(f, a0.id):
-                if 'super().get_single_node()' in norm(rhs):
-                    src_ok = True
-        elif 'super().get_single_node()' in norm(a0):
-            src_ok = True
-        r.check(src_ok, 'the processed node is the one composed by super().get_single_node()',
-                f.key('processed-node-source'), f.loc(c), 'the node given to __process_node is not the composed document')
+        srcs = [d.value for d in reaching_defs(f, c, a0.id)] if isinstance(a0, ast.Name) else [a0]
+        src_ok = bool(srcs)
+        for rhs in srcs:
+            t = norm(rhs)
+            if 'super().get_single_node()' in t:
+                continue
+            # the stand-in for an empty document: a null scalar, built only when PyYAML composed nothing
+            if isinstance(rhs, ast.Call) and call_name(rhs) == 'ScalarNode' and rhs.args and const_str(rhs.args[0]) == CORE + 'null':
+                continue
+            src_ok = False
+        r.check(src_ok, 'the processed node is the one composed by super().get_single_node() (or the null scalar standing for an '
+                'empty document)', f.key('processed-node-source'), f.loc(c), 'the node given to __process_node is not the composed document')
     call_nids = {f.nid(c) for c in calls}
-    names = {c.args[0].id for c in calls if isinstance(c.args[0], ast.Name)}
     for ret in f.returns():
         rn = f.nid(ret)
         if ret.value is None or (isinstance(ret.value, ast.Constant) and ret.value.value is None):
-            nonefree = is_none_test(f.guards(ret), names)
-            r.check(nonefree, 'return None only for an empty document', f.key('return-none'), f.loc(ret),
-                    'get_single_node returns None for a non-empty document')
+            r.fail(f.key('return-none'), f.loc(ret), 'get_single_node returns None without recognition: the load function returns '
+                   'None whatever type it was created for')
             continue
-        # a path reaching this return without the call must be one on which the composed node is None
-        avoid = set(call_nids)
-        reach = f.cfg.reachable(f.cfg.entry, avoid=avoid)
-        if rn in reach:
-            # find whether all such paths go through a "node is None" branch: remove those branch nodes too
-            none_br = {b.id for b in f.cfg.nodes if b.kind == 'branch' and is_none_test(conj_atoms(b.ast, b.pol), names)}
-            reach2 = f.cfg.reachable(f.cfg.entry, avoid=avoid | none_br)
-            r.check(rn not in reach2, 'a return that bypasses __process_node is only reached when the document is None',
-                    f.key('return-bypasses-process-node'), f.loc(ret),
-                    'a path returns the composed node without passing it through __process_node')
-        else:
-            r.ok('return at %s is reached only through __process_node' % f.loc(ret))
+        r.check(rn not in f.cfg.reachable(f.cfg.entry, avoid=set(call_nids)), 'the return at %s is reached only through __process_node '
+                '(an empty document included)' % f.loc(ret), f.key('return-bypasses-process-node'), f.loc(ret),
+                'a path returns without passing the document through __process_node: e.g. an empty document yields None for a '
+                'load function created for int or for a class')
         # the returned value is the processed node
         if isinstance(ret.value, ast.Name):
-            rhs = [norm(x) for x in assigned_from(f, ret.value.id)]
-            r.check(any('__process_node' in x for x in rhs), 'returned name is bound to the result of __process_node',
+            rhs = [norm(d.value) for d in reaching_defs(f, ret, ret.value.id)]
+            r.check(bool(rhs) and all('__process_node' in x for x in rhs), 'returned name is bound to the result of __process_node',
                     f.key('returned-value'), f.loc(ret), 'the value returned is not the result of __process_node')
+    if f.falls_off_end():
+        r.fail(f.key('return-none'), f.loc(), 'get_single_node can end without returning the processed node')
     r.done()
 
 
